@@ -48,7 +48,8 @@ func VerifC02Iff() {
 func VerifC02Malformed() {
 	_, pub, _ := c02Key("seed")
 	s := &Signature{HashType: hash.HashType(rt.U32("ht")), SigData: rt.BytesOfLen("sig", 0, 64)}
-	switch rt.Choose("pub", 3) {
+	wrongLen, wrongType := false, false
+	switch rt.Choose("pub", 5) {
 	case 1:
 		g := 3
 		if rt.Tier() > 0 {
@@ -59,6 +60,24 @@ func VerifC02Malformed() {
 		b, err := crypto.MarshalPublicKey(pub)
 		rt.Assert("marshal pub", err == nil)
 		s.PubKey = b
+	case 3: // a well-framed PublicKey message whose key material has the wrong length
+		raw, _ := pub.Raw()
+		n := []int{0, 31, 33, 64}[rt.Choose("keylen", 4)]
+		kd := make([]byte, n)
+		copy(kd, raw)
+		for i := 32; i < n; i++ {
+			kd[i] = rt.U8("extra")
+		}
+		b, err := (&crypto.PublicKey{KeyType: crypto.KeyType_Ed25519, Data: kd}).MarshalVT()
+		rt.Assert("marshal framed key", err == nil)
+		s.PubKey = b
+		wrongLen = true
+	case 4: // a well-framed PublicKey message of an unsupported key type
+		raw, _ := pub.Raw()
+		b, err := (&crypto.PublicKey{KeyType: crypto.KeyType(rt.IntRange("keytype", 0, 3)), Data: raw}).MarshalVT()
+		rt.Assert("marshal framed key", err == nil)
+		s.PubKey = b
+		wrongType = true
 	}
 	known := s.HashType == hash.HashType_HashType_SHA256 || s.HashType == hash.HashType_HashType_SHA1 || s.HashType == hash.HashType_HashType_BLAKE3
 	verr := s.Validate()
@@ -77,10 +96,58 @@ func VerifC02Malformed() {
 			rt.Assert("unparsable embedded key rejected by Validate", verr != nil)
 		}
 	}
+	if wrongLen {
+		rt.Reach("embedded key of wrong length")
+		rt.Assert("an embedded Ed25519 key that is not 32 bytes long is rejected by Validate", verr != nil)
+		pk, perr := s.ParsePubKey()
+		rt.Assert("and does not parse", perr != nil && pk == nil)
+	}
+	if wrongType {
+		if pk, perr := s.ParsePubKey(); perr == nil {
+			rt.Assert("an embedded key that parses is an Ed25519 key", pk != nil && pk.Type() == crypto.KeyType_Ed25519)
+		} else {
+			rt.Reach("embedded key of unsupported type")
+			rt.Assert("an embedded key of an unsupported type is rejected by Validate", verr != nil)
+		}
+	}
 	ok, err := s.VerifyWithPublic(rt.String("ctx", 0, 1), pub, rt.Bytes("data", 0, 1))
 	if !known || len(s.SigData) == 0 {
 		rt.Assert("malformed signature never verifies", !ok && err != nil)
 	}
 	rt.Assert("arbitrary signature bytes never verify (no forgery)", !ok)
+	rt.Reach("end")
+}
+
+// VerifC02SigLength: only the exact 64 signature bytes verify: a genuine signature that was truncated
+// or extended by arbitrary bytes is not a signature.
+func VerifC02SigLength() {
+	sk, pub, _ := c02Key("seed")
+	ctx := rt.String("ctx", 0, 1)
+	data := rt.Bytes("data", 0, 1)
+	ht := hash.HashType(rt.IntRange("ht", 1, 3))
+	sig, err := NewSignature(ctx, sk, ht, data, false)
+	rt.Assert("sign", err == nil && len(sig.SigData) == 64)
+	ok, verr := sig.VerifyWithPublic(ctx, pub, data)
+	rt.Assert("the genuine signature verifies", ok && verr == nil)
+	good := sig.SigData
+	switch rt.Choose("shape", 4) {
+	case 0:
+		sig.SigData = good[:63]
+	case 1:
+		sig.SigData = append(append([]byte{}, good...), rt.U8("extra"))
+	case 2:
+		sig.SigData = append(append([]byte{}, good...), rt.Bytes("extra32", 32, 32)...)
+	case 3:
+		sig.SigData = append([]byte{rt.U8("lead")}, good...)
+	}
+	ok, _ = sig.VerifyWithPublic(ctx, pub, data)
+	rt.Assert("a truncated or extended signature does not verify", !ok)
+	m := &SignedMsg{FromPeerId: "", Signature: sig, Data: data}
+	id, _ := IDFromPublicKey(pub)
+	m.FromPeerId = IDB58Encode(id)
+	if len(data) > 0 {
+		_, _, err = m.ExtractAndVerify(ctx)
+		rt.Assert("nor does a signed message carrying it", err != nil)
+	}
 	rt.Reach("end")
 }
